@@ -842,6 +842,20 @@ func (c *m3) aliasCheck() {
 			if base := c.appendBase(s); base != nil {
 				appendBases = append(appendBases, use{base, curLoops()})
 			}
+			// a call that changes its receiver / a pointer argument writes through that pointer
+			if sel, ok := s.Fun.(*ast.SelectorExpr); ok {
+				if tv, has := c.p.info.Types[sel.X]; has && tv.Type != nil && !tv.IsType() {
+					if cm := c.g.mut[methodKey(c.spec.pkg, tv.Type, sel.Sel.Name)]; cm != nil && cm.recv {
+						if id, isId := stripParens(sel.X).(*ast.Ident); isId {
+							if o := c.obj(id); o != nil && c.isLocal(o) {
+								if _, isPtr := o.Type().Underlying().(*types.Pointer); isPtr {
+									ptrWritten[o] = s
+								}
+							}
+						}
+					}
+				}
+			}
 			// append(x.f, ..) must be assigned back to x.f
 			if id, ok := s.Fun.(*ast.Ident); ok && id.Name == "append" && len(s.Args) > 0 {
 				if _, isB := c.obj(id).(*types.Builtin); isB {
@@ -1034,6 +1048,16 @@ func (c *m3) aliasCheck() {
 			}
 			return true
 		})
+	}
+	// a local pointer that is written through must own its object: every definition of it is a fresh object
+	// (&T{..}, new, nil, or a translated call whose result is fresh)
+	for o, w := range ptrWritten {
+		if o == c.recvObj || c.isParam(o) >= 0 || c.direct[o] {
+			continue
+		}
+		if c.varClass(o) != 0 {
+			c.fail(w, "write through the pointer `%s`, whose object may also be reachable from another value (it was not created here: sharing is not modelled)", o.Name())
+		}
 	}
 	for o, w := range ptrWritten {
 		if cp, ok := ptrCopied[o]; ok {
